@@ -1,4 +1,5 @@
 import ShredModel.Drv.Plan
+import ShredModel.Drv.SysData
 /-!
 Line-protocol front end of the model. One request per line, one answer per line. The first
 word selects the sub-model; anything else goes to the builder / task model.
@@ -9,9 +10,13 @@ open Shred
 
 structure St where
   plan : Drv.Plan.St := {}
+  sd : Drv.SysData.St := {}
 
 def step (st : St) (line : String) : St × String :=
   match line.trimAscii.toString.splitOn " " with
+  | "sd" :: ws =>
+    let (s, o) := Drv.SysData.step st.sd ws
+    ({ st with sd := s }, o)
   | ws =>
     let (s, o) := Drv.Plan.step st.plan ws
     ({ st with plan := s }, o)
